@@ -44,12 +44,30 @@ pub fn any_felt_word() -> W {
 
 // ---------------------------------------------------------------- hash table
 pub const HCAP: usize = 96;
-static mut HN: usize = 0;
-static mut HTAG: [u8; HCAP] = [0; HCAP];
-static mut HA: [W; HCAP] = [[0; 4]; HCAP];
-static mut HB: [W; HCAP] = [[0; 4]; HCAP];
-static mut HV: [W; HCAP] = [[0; 4]; HCAP];
-static mut HTRUNC: [bool; HCAP] = [false; HCAP];
+// All mutable model state lives in ONE static per table whose initial content is unique
+// (magic words).  Kani 0.68 was observed to share the allocation of a zero-initialised
+// `static mut` with an unrelated constant of equal content (alloc::raw_vec ZERO_CAP and a
+// `static mut N: usize = 0`): bumping the counter changed `Vec::new()`'s capacity.
+struct HashTab {
+    magic: u64,
+    n: usize,
+    tag: [u8; HCAP],
+    a: [W; HCAP],
+    b: [W; HCAP],
+    v: [W; HCAP],
+    trunc: [bool; HCAP],
+    magic2: u64,
+}
+static mut HT: HashTab = HashTab {
+    magic: 0x5eed_7ab1_e000_0001,
+    n: 0,
+    tag: [0; HCAP],
+    a: [[0; 4]; HCAP],
+    b: [[0; 4]; HCAP],
+    v: [[0; 4]; HCAP],
+    trunc: [false; HCAP],
+    magic2: 0x5eed_7ab1_e000_0002,
+};
 
 pub mod tag {
     pub const POSEIDON2: u8 = 1;
@@ -75,40 +93,53 @@ pub mod tag {
 pub fn hash2(t: u8, a: W, b: W, felt_out: bool, trunc: bool) -> W {
     unsafe {
         let out = if felt_out { any_felt_word() } else { any_word() };
-        let n = HN;
+        let n = HT.n;
         assert!(n < HCAP, "MODEL-LIMIT: hash UF table full");
         let mut i = 0;
         while i < n {
-            let same = HTAG[i] == t && weq(&HA[i], &a) && weq(&HB[i], &b);
+            let same = HT.tag[i] == t && weq(&HT.a[i], &a) && weq(&HT.b[i], &b);
             if same {
-                kani::assume(weq(&HV[i], &out));
-            } else if trunc || HTRUNC[i] {
-                kani::assume(!low160_eq(&HV[i], &out));
+                kani::assume(weq(&HT.v[i], &out));
+            } else if trunc || HT.trunc[i] {
+                kani::assume(!low160_eq(&HT.v[i], &out));
             } else {
-                kani::assume(!weq(&HV[i], &out));
+                kani::assume(!weq(&HT.v[i], &out));
             }
             i += 1;
         }
-        HTAG[n] = t;
-        HA[n] = a;
-        HB[n] = b;
-        HV[n] = out;
-        HTRUNC[n] = trunc;
-        HN = n + 1;
+        HT.tag[n] = t;
+        HT.a[n] = a;
+        HT.b[n] = b;
+        HT.v[n] = out;
+        HT.trunc[n] = trunc;
+        HT.n = n + 1;
         out
     }
 }
 pub fn hash_calls() -> usize {
-    unsafe { HN }
+    unsafe { HT.n }
 }
 
 // --------------------------------------------------------------- arith table
 pub const ACAP: usize = 64;
-static mut AN: usize = 0;
-static mut ATAG: [u8; ACAP] = [0; ACAP];
-static mut AA: [W; ACAP] = [[0; 4]; ACAP];
-static mut AB: [W; ACAP] = [[0; 4]; ACAP];
-static mut AV: [W; ACAP] = [[0; 4]; ACAP];
+struct ArithTab {
+    magic: u64,
+    n: usize,
+    tag: [u8; ACAP],
+    a: [W; ACAP],
+    b: [W; ACAP],
+    v: [W; ACAP],
+    magic2: u64,
+}
+static mut AT: ArithTab = ArithTab {
+    magic: 0x5eed_7ab1_e000_0003,
+    n: 0,
+    tag: [0; ACAP],
+    a: [[0; 4]; ACAP],
+    b: [[0; 4]; ACAP],
+    v: [[0; 4]; ACAP],
+    magic2: 0x5eed_7ab1_e000_0004,
+};
 
 const ZERO: W = [0; 4];
 
@@ -128,39 +159,39 @@ pub fn arith2(t: u8, a: W, b: W) -> W {
         } else if t == tag::DIV {
             kani::assume(weq(&out, &ZERO) == az);
         }
-        let n = AN;
+        let n = AT.n;
         assert!(n < ACAP, "MODEL-LIMIT: arith UF table full");
         let mut i = 0;
         while i < n {
-            if ATAG[i] == t {
-                let ea = weq(&AA[i], &a);
-                let eb = weq(&AB[i], &b);
+            if AT.tag[i] == t {
+                let ea = weq(&AT.a[i], &a);
+                let eb = weq(&AT.b[i], &b);
                 if ea && eb {
-                    kani::assume(weq(&AV[i], &out));
+                    kani::assume(weq(&AT.v[i], &out));
                 } else if t == tag::MUL {
-                    let xa = weq(&AA[i], &b);
-                    let xb = weq(&AB[i], &a);
+                    let xa = weq(&AT.a[i], &b);
+                    let xb = weq(&AT.b[i], &a);
                     if (ea && !az) || (eb && !bz) || (xa && !bz) || (xb && !az) {
-                        kani::assume(!weq(&AV[i], &out));
+                        kani::assume(!weq(&AT.v[i], &out));
                     }
                 } else if t == tag::DIV {
                     if (ea && !az) || eb {
-                        kani::assume(!weq(&AV[i], &out));
+                        kani::assume(!weq(&AT.v[i], &out));
                     }
                 }
             }
             i += 1;
         }
-        ATAG[n] = t;
-        AA[n] = a;
-        AB[n] = b;
-        AV[n] = out;
-        AN = n + 1;
+        AT.tag[n] = t;
+        AT.a[n] = a;
+        AT.b[n] = b;
+        AT.v[n] = out;
+        AT.n = n + 1;
         out
     }
 }
 pub fn arith_calls() -> usize {
-    unsafe { AN }
+    unsafe { AT.n }
 }
 
 // ------------------------------------------------------------ byte-hash model
